@@ -169,7 +169,12 @@ def variant_index(relpath, enum, variant):
         body = re.sub(r"//[^\n]*", "", "".join(body))
         body = re.sub(r"#\[[^\]]*\]", "", body)
         if "=" in body:
-            return None  # explicit discriminants: not handled
+            # explicit discriminants: handled for the plain `Name = <integer literal>` form only
+            vals = dict((m_.group(1), int(m_.group(2))) for m_ in re.finditer(r"\b([A-Z]\w*)\s*=\s*(\d+)\s*(?:,|\}|$)", body))
+            items = [x.strip() for x in body.rstrip().rstrip("}").split(",") if x.strip()]
+            if len(vals) != len(items):
+                return None
+            return vals.get(variant)
         names = [x.strip().split("(")[0].split("{")[0].strip() for x in body.rstrip("}").split(",")]
         names = [n for n in names if re.match(r"^[A-Z]\w*$", n)]
         return names.index(variant) if variant in names else None
